@@ -339,6 +339,7 @@ theorem f64ToU64_range (f : F64) : 0 ≤ f64ToU64 f ∧ f64ToU64 f < 18446744073
 theorem goParseUint_range {s : List Char} {v : Int} (h : goParseUint s = some v) :
     0 ≤ v ∧ v < 18446744073709551616 := by
   unfold goParseUint at h
+  simp only [] at h
   split at h
   · cases h
   · split at h
